@@ -139,4 +139,12 @@ theorem C15_ties :
 example : (teardown (fun i => i == 2) [⟨0, false⟩, ⟨1, true⟩, ⟨2, true⟩, ⟨3, false⟩]).1 =
     [.attempt 3, .attempt 2, .attempt 1, .skip 0] := by decide
 
+/-- **Filler properties that are no directory place nothing**: the refusal comes before the first unpack and the first
+    placement — no event, no janitor on the stack, hence nothing to roll back (before the `fix:` the first filler parent
+    panicked in `PlaceFile` after earlier inputs were mounted: the `asmbusy-badfiller` stream). With directory properties
+    `Run` is what the rest of this file proves things about. -/
+theorem C15_bad_filler_places_nothing (tdFails : Nat → Bool) (parts : List Part) :
+    asmRunChecked false tdFails parts = ([], .failed "filler" 0, []) ∧
+    asmRunChecked true tdFails parts = asmRun tdFails parts := ⟨rfl, rfl⟩
+
 end Rio
